@@ -46,6 +46,8 @@ def value_pool() -> Dict[str, Any]:
         "v18": "",
         "v19": np.zeros((0, 3)),
         "v20": np.int8(-3),
+        # a payload of more than 1 MiB (containers beyond typical buffer / mmap thresholds)
+        "vbig": np.arange(140_000, dtype="float64"),
         # three-element arrays for element writes (H5Tree!ArrTok)
         **{f"w{a}{b}{c}": np.array([a, b, c], dtype="int64") for a in (0, 1) for b in (0, 1) for c in (0, 1)},
     }
@@ -67,6 +69,8 @@ def canon(x) -> str:
         return "str:" + x
     if isinstance(x, np.ndarray) and x.dtype == object:
         return f"arr:O:{x.shape}:" + ";".join(canon(e) for e in x.ravel())
+    if isinstance(x, np.ndarray) and x.nbytes > 4096:
+        return f"arr:{x.dtype.str}:{x.shape}:sha1={hashlib.sha1(x.tobytes()).hexdigest()}"
     if isinstance(x, np.ndarray):
         return f"arr:{x.dtype.str}:{x.shape}:{x.tobytes().hex()}"
     if isinstance(x, np.generic):
@@ -85,11 +89,13 @@ class Tokens:
         with h5py.File(p, "w") as f:
             for t, v in self.pool.items():
                 f[t] = v
-                f.attrs[t] = v
+                if t != "vbig":          # (too large for an attribute)
+                    f.attrs[t] = v
         with h5py.File(p, "r") as f:
             for t in self.pool:
                 self.ds[canon(f[t][()])] = t
-                self.at[canon(f.attrs[t])] = t
+                if t in f.attrs:
+                    self.at[canon(f.attrs[t])] = t
         p.unlink()
 
     @staticmethod
